@@ -50,12 +50,10 @@ VARIABLES cfg,        \* [auto: BOOLEAN, dis: BOOLEAN]  stream-level AutoPauseTi
           subs,       \* [SubIds -> [p, st, got]]  st: "" none/cancelled, "wait" open, or the terminal status
           acked,      \* ghost: set of <<p, m>> acknowledged to a publisher (current incarnation of the stream)
           refused,    \* ghost: message ids refused with a documented error
-          tail,       \* ghost: the Raft log holds a command entry behind the last snapshot
-          tainted,    \* ghost: a restart left partitions in recovery mode (known defect, see DoRestart)
           pend,       \* the publish / subscribe that is parked at a gate
           obs         \* observable result of the last call
 
-vars == <<cfg, exists, paused, ro, leading, resumeAll, lastRA, log, subs, acked, refused, tail, tainted, pend, obs>>
+vars == <<cfg, exists, paused, ro, leading, resumeAll, lastRA, log, subs, acked, refused, pend, obs>>
 
 NoSub == [p |-> -1, st |-> "", got |-> <<>>]
 NoPend == [on |-> FALSE, kind |-> "", p |-> -1, m |-> 0, s |-> "", ph |-> "", R |-> {}]
@@ -64,12 +62,11 @@ Results == {"ok", "readonly", "notfound", "timeout", "paused", "panic"}
 
 \* ---------------------------------------------------------------- state as a record
 Cur == [exists |-> exists, paused |-> paused, ro |-> ro, leading |-> leading, resumeAll |-> resumeAll,
-        lastRA |-> lastRA, log |-> log, subs |-> subs, acked |-> acked, refused |-> refused,
-        tail |-> tail, tainted |-> tainted]
+        lastRA |-> lastRA, log |-> log, subs |-> subs, acked |-> acked, refused |-> refused]
 
 Set(S) == /\ exists' = S.exists /\ paused' = S.paused /\ ro' = S.ro /\ leading' = S.leading
           /\ resumeAll' = S.resumeAll /\ lastRA' = S.lastRA /\ log' = S.log /\ subs' = S.subs
-          /\ acked' = S.acked /\ refused' = S.refused /\ tail' = S.tail /\ tainted' = S.tainted
+          /\ acked' = S.acked /\ refused' = S.refused
 
 Open(S, s) == S.subs[s].st = "wait"
 SubCount(S, p) == Cardinality({s \in SubIds : Open(S, s) /\ S.subs[s].p = p})
@@ -83,12 +80,12 @@ PausedSet(S, Q, ra) ==
   LET S1 == EndSubs(S, Q, "paused") IN
   [S1 EXCEPT !.paused = [q \in Parts |-> S.paused[q] \/ q \in Q],
              !.leading = [q \in Parts |-> S.leading[q] /\ q \notin Q],
-             !.resumeAll = ra, !.lastRA = ra, !.tail = TRUE]
+             !.resumeAll = ra, !.lastRA = ra]
 
 \* RESUME_STREAM applied (metadata.ResumePartition: replacePartition + SetLeader)
 ResumedSet(S, R) ==
   [S EXCEPT !.paused = [q \in Parts |-> S.paused[q] /\ q \notin R],
-            !.leading = [q \in Parts |-> S.leading[q] \/ (q \in R /\ S.paused[q])], !.tail = TRUE]
+            !.leading = [q \in Parts |-> S.leading[q] \/ (q \in R /\ S.paused[q])]]
 
 \* apiServer.resumeStream: which partitions the call asks to resume
 ResumeSet(S, p) == IF S.resumeAll THEN {q \in Parts : S.paused[q]} ELSE (IF S.paused[p] THEN {p} ELSE {})
@@ -203,7 +200,7 @@ DoSubEnd ==
 DoUnsub(s) ==
   /\ subs[s].st # ""
   /\ subs' = [subs EXCEPT ![s] = NoSub] /\ obs' = [a |-> "Unsub", res |-> "ok"]
-  /\ UNCHANGED <<cfg, exists, paused, ro, leading, resumeAll, lastRA, log, acked, refused, tail, tainted, pend>>
+  /\ UNCHANGED <<cfg, exists, paused, ro, leading, resumeAll, lastRA, log, acked, refused, pend>>
 
 \* ---------------------------------------------------------------- metadata operations
 \* PauseStream: the API replaces an empty partition list by all partitions
@@ -221,7 +218,7 @@ ReadonlyFn(S, Q, b) ==
   IF ~S.exists THEN [s |-> S, res |-> "notfound"]
   ELSE LET QQ == IF Q = {} THEN Parts ELSE Q
            S1 == IF b THEN EndSubs(S, {q \in QQ : ~S.paused[q]}, "readonly") ELSE S IN
-       [s |-> [S1 EXCEPT !.ro = [q \in Parts |-> IF q \in QQ THEN b ELSE S.ro[q]], !.tail = TRUE], res |-> "ok"]
+       [s |-> [S1 EXCEPT !.ro = [q \in Parts |-> IF q \in QQ THEN b ELSE S.ro[q]]], res |-> "ok"]
 
 DoReadonly(Q, b) ==
   LET a == ReadonlyFn(Cur, Q, b) IN
@@ -231,7 +228,7 @@ DeleteFn(S) ==
   IF ~S.exists THEN [s |-> S, res |-> "notfound"]
   ELSE LET S1 == EndSubs(S, Parts, "deleted") IN
        [s |-> [S1 EXCEPT !.exists = FALSE, !.paused = AllF, !.ro = AllF, !.leading = AllF, !.resumeAll = FALSE,
-                         !.lastRA = FALSE, !.log = [q \in Parts |-> <<>>], !.acked = {}, !.tail = TRUE],
+                         !.lastRA = FALSE, !.log = [q \in Parts |-> <<>>], !.acked = {}],
         res |-> "ok"]
 
 DoDelete ==
@@ -241,7 +238,7 @@ DoDelete ==
 \* CreateStream with the same name (and the same stream-level configuration)
 CreateFn(S) ==
   IF S.exists THEN [s |-> S, res |-> "exists"]
-  ELSE [s |-> [S EXCEPT !.exists = TRUE, !.leading = [q \in Parts |-> TRUE], !.tail = TRUE], res |-> "ok"]
+  ELSE [s |-> [S EXCEPT !.exists = TRUE, !.leading = [q \in Parts |-> TRUE]], res |-> "ok"]
 
 DoCreate ==
   LET a == CreateFn(Cur) IN
@@ -263,16 +260,12 @@ DoIdle ==
 \* partitions, PAUSE closes them again, RESUME replaces them, SET_READONLY, DELETE tombstones); afterwards every
 \* partition that is not paused starts leading.  ResumeAll is not persisted: it comes back as the flag of the
 \* last PAUSE entry.  The driver cancels the subscriptions before the stop.
-\* Known defect (C06-no-finish-when-snapshot-covers-log): Server.Apply calls finishedRecovery at the last REPLAYED
-\* entry; when the snapshot covers the whole log nothing is replayed and the partitions that Restore added stay in
-\* recovery mode - they are not paused and not started, until they are paused and resumed or the server restarts
-\* with an entry behind the snapshot.  Modelled as the code behaves; the ghost `tainted` marks the behaviour.
+\* (Server.Apply calls finishedRecovery at the last REPLAYED entry; when the snapshot covers the whole log nothing
+\* is replayed and Server.Start ends the recovery itself - finishRestore - once the API server is initialised:
+\* either way the partitions that are not paused are started.  Repaired defect C06-no-finish-when-snapshot-covers-log.)
 RestartFn(S, snap) ==
-  LET started == ~snap /\ S.tail IN
-  [s |-> [S EXCEPT !.leading = [q \in Parts |-> started /\ S.exists /\ ~S.paused[q]],
+  [s |-> [S EXCEPT !.leading = [q \in Parts |-> S.exists /\ ~S.paused[q]],
                    !.resumeAll = (IF snap THEN FALSE ELSE S.lastRA), !.lastRA = (IF snap THEN FALSE ELSE S.lastRA),
-                   !.tail = (~snap /\ S.tail),
-                   !.tainted = (S.tainted \/ (~started /\ S.exists /\ \E q \in Parts : ~S.paused[q])),
                    !.subs = [s \in SubIds |-> NoSub]],
    res |-> "ok"]
 
@@ -284,13 +277,13 @@ DoRestart(snap) ==
 
 \* a short time passes (less than the auto-pause time since the last activity of every partition)
 DoWait == obs' = [a |-> "Wait", res |-> "ok"]
-          /\ UNCHANGED <<cfg, exists, paused, ro, leading, resumeAll, lastRA, log, subs, acked, refused, tail, tainted, pend>>
+          /\ UNCHANGED <<cfg, exists, paused, ro, leading, resumeAll, lastRA, log, subs, acked, refused, pend>>
 
 \* ---------------------------------------------------------------- initial state
 InitWith(c) ==
   /\ cfg = c /\ exists = TRUE /\ paused = AllF /\ ro = AllF /\ leading = [q \in Parts |-> TRUE]
   /\ resumeAll = FALSE /\ lastRA = FALSE /\ log = [q \in Parts |-> <<>>]
-  /\ subs = [s \in SubIds |-> NoSub] /\ acked = {} /\ refused = {} /\ tail = TRUE /\ tainted = FALSE /\ pend = NoPend
+  /\ subs = [s \in SubIds |-> NoSub] /\ acked = {} /\ refused = {} /\ pend = NoPend
   /\ obs = [a |-> "Open", res |-> "ok"]
 
 TypeOK ==
@@ -316,7 +309,6 @@ X02_PausedQuiet == \A p \in Parts : paused[p] => ~leading[p] /\ SubCount(Cur, p)
 
 \* a partition that is neither paused nor deleted is served (no partition is left closed for ever)
 X02_ActiveServed == (~pend.on /\ exists) => \A p \in Parts : ~paused[p] => leading[p]
-X02_ActiveServedT == ~tainted => X02_ActiveServed      \* (the design model carries the known restart defect)
 
 \* a deleted stream is gone: no flags, no loops, no log, no subscription
 X02_DeletedGone == ~exists => /\ \A p \in Parts : ~paused[p] /\ ~leading[p] /\ ~ro[p] /\ log[p] = <<>>
